@@ -38,6 +38,13 @@ def opMinify : Handler := fun args => do
   | none => .error "invalid"
   | some out => .ok (charsToBytes out)
 
+/-- the exponent of a number lexeme is small enough for `numVal` to be evaluated (at most 4 significant
+    exponent digits); other lexemes are compared by the harness' exact decimal oracle only -/
+def expSmall (s : List Char) : Bool :=
+  match s.dropWhile (fun c => !isE c) with
+  | [] => true
+  | _ :: t => ((expBody t).dropWhile (· == '0')).length ≤ 4
+
 /-- `spec.c07.holds input output keepNumbers mode table` — the property itself, evaluated with the
     specification side only (`parseJ`, `jvEq`, lengths) on the implementation's output.
     mode 0: numbers compared by value (`jvEq`); mode 1: shape only (`jvShapeEq`; precision > 0 or
@@ -56,7 +63,8 @@ def opHolds : Handler := fun args => do
     | some v' =>
       let opts : JsonOpts := { keepNumbers := keep }
       let allow := countNum (numGrows opts (numOf (numTable tbl))) v
-      if !(if mode == 0 then jvEq v v' else jvShapeEq v v') then .ok (strBytes "value")
+      let big := countNum (fun s => !expSmall s) v + countNum (fun s => !expSmall s) v' > 0
+      if !(if mode == 0 && !big then jvEq v v' else jvShapeEq v v') then .ok (strBytes "value")
       else if keep && compact v != compact v' then .ok (strBytes "keepnumbers")
       else if o.length ≤ i.length then .ok (strBytes "ok")
       else if o.length ≤ i.length + allow then .ok (strBytes "length-known")
